@@ -91,6 +91,7 @@ def _worker(args):
         finally:
             signal.alarm(0)
         rep.setdefault("wall_s", round(time.time() - t0, 2))
+        rep.setdefault("fn_path", fn_path)
         return rep
     except TimeoutError as e:
         return dict(unit=unit, status="undecided", error=str(e), obligations=0, proved=0, failed=[], nfailed=0,
@@ -164,7 +165,7 @@ def write_replay(prop, unit, ob, extra=None):
     os.makedirs(REPLAYS, exist_ok=True)
     body = dict(property=prop, unit=unit, obligation=ob.get("name"), detail=ob.get("detail"),
                 model=ob.get("model"), solver=ob.get("backend", "z3"), extra=extra or {},
-                repo=REPO)
+                repo=REPO, fn_path=ob.get("fn_path"))
     h = hashlib.sha1(json.dumps(body, sort_keys=True, default=str).encode()).hexdigest()[:10]
     safe = re.sub(r"[^A-Za-z0-9_.-]", "_", str(ob.get("name")))
     path = os.path.join(REPLAYS, f"{prop}-{safe}-{h}.json")
@@ -250,6 +251,8 @@ class Verdict:
                             self.known.append((e, unit, ob))
                     nf_known += 1
                 else:
+                    if rep.get("fn_path") and isinstance(ob, dict):
+                        ob = dict(ob, fn_path=rep["fn_path"])
                     self.violations.append([unit, ob, None, None])
             more = rep.get("nfailed", 0) - len(rep.get("failed") or [])
             if more > 0:
